@@ -69,8 +69,8 @@ func VfC14_KnownUnsupported() {
 	idx := nd.Concrete(nd.Choice("cmd", len(vfRefUnsupported)))
 	name := []byte(vfRefUnsupported[idx])
 	for i := range name {
-		if name[i] >= 'a' && name[i] <= 'z' && nd.Bool("upper") {
-			name[i] -= 32
+		if name[i] >= 'a' && name[i] <= 'z' {
+			name[i] -= 32 * (nd.Byte("upper") & 1) // symbolic letter case, no fork
 		}
 	}
 	raw := newRawRequest(newArray(*newBulkBytes(name), *newBulkString("k"), *newBulkString("v")))
@@ -86,9 +86,7 @@ func VfC14_Local() {
 	names := []string{"ping", "quit", "select"}
 	name := []byte(names[nd.Concrete(nd.Choice("cmd", len(names)))])
 	for i := range name {
-		if nd.Bool("upper") {
-			name[i] -= 32
-		}
+		name[i] -= 32 * (nd.Byte("upper") & 1)
 	}
 	raw := newRawRequest(newArray(*newBulkBytes(name), *newBulkString("0")))
 	nd.PanicLabel("handleRequest")
